@@ -93,6 +93,40 @@ func ruleC13(c *Ctx, r *Result) {
 			ok := loopHead != nil && loopHead.Dominates(in.Block()) && !reachableFrom(in.Block(), nil)[loopHead]
 			r.Check(ok, "C13.1", name+"#gate-precedes-"+what, c.InstrPos(in), "the effect lies behind the complete maximum-dimension loop")
 		}
+		// the loop examines every dimension: it is left only when the dimensions are exhausted (from its header) or through a
+		// failing return; a `break` on the first unlimited dimension leaves the later fixed maxima unchecked
+		var hdr *ssa.BasicBlock
+		for b := gate.Block(); b != nil && hdr == nil; b = b.Idom() {
+			for _, p := range b.Preds {
+				if b.Dominates(p) && p != b {
+					hdr = b
+				}
+			}
+		}
+		if hdr != nil {
+			loop := naturalLoop(hdr)
+			early := ""
+			for _, b := range rz.Blocks {
+				if !loop[b] || b == hdr {
+					continue
+				}
+				for _, s := range b.Succs {
+					if loop[s] {
+						continue
+					}
+					onlyErrors := true
+					for blk := range reachableFrom(s, map[*ssa.BasicBlock]bool{b: true}) {
+						if ret, ok := blk.Instrs[len(blk.Instrs)-1].(*ssa.Return); ok && isNilConst(retOperand(ret, 0)) {
+							onlyErrors = false
+						}
+					}
+					if !onlyErrors {
+						early = c.InstrPos(b.Instrs[len(b.Instrs)-1])
+					}
+				}
+			}
+			r.Check(early == "", "C13.1", name+"#gate-loop-examines-every-dimension", firstNonEmpty(early, c.InstrPos(gate)), "the maximum-dimension loop is left only when every dimension was examined or through the failing return")
+		}
 		for _, call := range wohCalls {
 			check("WriteObjectHeader", call)
 		}
